@@ -114,10 +114,16 @@ impl<R: Read> GenomeIO<R> {
         let header_line = if let Some(buffered) = self.next_header.take() {
             buffered
         } else {
-            self.buffer.clear();
-            let bytes_read = reader.read_until(b'\n', &mut self.buffer)?;
-            if bytes_read == 0 {
-                return Ok(None);
+            // Skip blank (white-space-only) lines in front of a header line
+            loop {
+                self.buffer.clear();
+                let bytes_read = reader.read_until(b'\n', &mut self.buffer)?;
+                if bytes_read == 0 {
+                    return Ok(None);
+                }
+                if !String::from_utf8_lossy(&self.buffer).trim().is_empty() {
+                    break;
+                }
             }
             self.buffer.clone()
         };
@@ -147,8 +153,13 @@ impl<R: Read> GenomeIO<R> {
             contig.extend_from_slice(&self.buffer);
         }
 
-        if id.is_empty() || contig.is_empty() {
-            return Ok(None);
+        // A record without sequence is an empty contig (callers skip those), not the end of the
+        // input; a record without a name cannot be stored and must not be dropped silently.
+        if id.is_empty() {
+            return Err(io::Error::new(
+                io::ErrorKind::InvalidData,
+                "FASTA record with an empty name",
+            ));
         }
 
         Ok(Some((id, contig)))
